@@ -36,11 +36,25 @@ def pod(job, kind, cpu, st="Pending", node="", groups=(), gpu=1, frac=500, mem=0
     return dict(job=job, kind="frac", gpu=0, gq=frac, mem=0, cpu=cpu, st=st, node=node, groups=list(groups))
 
 
+def claim_pod(job, cpu, claim, pcn=None, st="Pending", node="", dev=-1):
+    """a pod that requests its GPU through ONE DRA ResourceClaim object `claim` (one device of the GPU device class);
+    pcn = name of the entry in pod.spec.resourceClaims (the key of the scheduler's per-pod bookkeeping): it differs
+    from the object's name when the claim was generated from a ResourceClaimTemplate. dev = index of the device of
+    `node` the claim is allocated to and reserved for the pod (Running pods). In the model: a whole-GPU pod."""
+    p = pod(job, "whole", cpu, st, node)
+    p.update(claim=claim, pcn=pcn or claim, dev=dev)
+    return p
+
+
 def scenario(nodes, queues, jobs, pods, groups):
     for i, p in enumerate(sorted(pods)):
         pods[p]["ord"] = i + 1
+        pods[p].setdefault("claim", "")  # no resource claim
+        pods[p].setdefault("pcn", "")
+        pods[p].setdefault("dev", -1)
     for n in nodes.values():
         n.setdefault("gmem", 100)       # no nvidia.com/gpu.memory label: the code's default of 100 units per device
+        n.setdefault("dra", 0)          # > 0: the node's GPUs are DRA devices (a ResourceSlice), not an extended resource
     return dict(nodes=nodes, queues=queues, jobs=jobs, pods=pods, groups=list(groups))
 
 
@@ -84,6 +98,22 @@ SCN_MEM = scenario(
     pods={"p1": pod("j1", "mem", 1000, "Running", "n1", ["g1"], mem=4000), "p2": pod("j1", "mem", 1000, mem=2000),
           "p3": pod("j2", "frac", 500, "Running", "n2", ["g2"]), "p4": pod("j2", "whole", 1000)},
     groups=["g1", "g2", "g3"])
+
+
+# D: GPUs published as DRA devices (2 nodes x 3 devices), every pod asks for its GPU through a ResourceClaim of its own.
+# gang j1 (min 2 of 3): p1 running on n1 device 1 (device 0 - the one the allocator would pick first - and device 2
+# are free) with a template-generated claim (pod-level name "gpu" != object name), p2 pending with a template-generated
+# claim, p3 pending with a directly named claim; single j2 (non-preemptible): p4 running on n2 device 2 with a directly
+# named claim.
+SCN_DRA = scenario(
+    nodes={"n1": dict(gpu=3, cpu=4000, dra=3), "n2": dict(gpu=3, cpu=4000, dra=3)},
+    queues=QUEUES,
+    jobs={"j1": dict(queue="q1", np=0, min=2), "j2": dict(queue="q2", np=1, min=1)},
+    pods={"p1": claim_pod("j1", 1000, "p1-gpu-x7k2q", "gpu", "Running", "n1", 1),
+          "p2": claim_pod("j1", 1000, "p2-gpu-m4c9z", "gpu"),
+          "p3": claim_pod("j1", 1000, "p3-claim"),
+          "p4": claim_pod("j2", 1000, "p4-claim", None, "Running", "n2", 2)},
+    groups=["g1"])
 
 
 def tla(v):
@@ -229,6 +259,8 @@ def features(prefix):
             f.add("convert")
         if e["ev"] == "Cache" and e["ok"] == 0:
             f.add(e["c"] + "fail")        # bindfail / evictfail
+        if e["ev"] == "H" and e["h"] == "evict" and cfg.get("pods", {}).get(e["p"], {}).get("claim"):
+            f.add("reevictclaim")         # the eviction of a pod with a resource claim is REDONE (undo of its un-eviction) inside Rollback / Discard / Commit
         if "state" in e:
             state = e["state"]
             for nd in state["nodes"].values():
@@ -247,14 +279,21 @@ def _flat(d, pre=""):
     return out
 
 
-def diff_classes(prefix):
+def diff_classes(prefix, claims=False):
     """for a prefix that ends with Rollback / Discard: which kinds of fields differ between the real state logged
-    after it and the real state logged at the checkpoint (names of nodes / pods / workloads / queues removed)."""
+    after it and the real state logged at the checkpoint (names of nodes / pods / workloads / queues removed).
+    claims: the resource-claim part of the state (C13_ClaimsObs; also after an un-eviction: the pod's part against the
+    state logged before its latest eviction) instead of the pods / nodes / workloads / queues part."""
     cps = {0: prefix[0]["state"]}
     last, ref = None, None
+    evb, before = {}, prefix[0]["state"]
     for e in prefix[1:]:
         if e["ev"] != "Call":
+            before = e.get("state", before)
             continue
+        if e["op"] == "Evict" and e["err"] == 0:
+            evb[e["p"]] = before
+        before = e.get("state", before)
         last = e
         if e["op"] in ("Discard", "CommitEnd"):
             ref = cps.get(0)
@@ -264,14 +303,19 @@ def diff_classes(prefix):
         else:
             ref = None
             cps[e["cp"] if e["op"] == "Checkpoint" else len(e["ops"])] = e["state"]
-    if last is None or last["op"] not in ("Rollback", "Discard") or ref is None:
+    if claims and last is not None and last["op"] in ("Unevict", "Pipeline") and last["p"] in evb:
+        a, b = (_flat({"claims": {"pods": {last["p"]: st["claims"]["pods"][last["p"]]}}}) for st in (evb[last["p"]], last["state"]))
+    elif last is None or last["op"] not in ("Rollback", "Discard") or ref is None:
         return []
-    a, b = _flat(ref), _flat(last["state"])
+    else:
+        a, b = _flat(ref), _flat(last["state"])
     out = set()
     for k in a:
         if a[k] == b.get(k):
             continue
         parts = k.split(".")
+        if (parts[0] == "claims") != claims:
+            continue
         if parts[0] == "pods" and parts[-1] == "groups":
             stk = ".".join(parts[:-1] + ["st"])
             if json.loads(a[stk]) == "Pending" and json.loads(b.get(stk, '""')) == "Pending":
@@ -281,7 +325,7 @@ def diff_classes(prefix):
             held = ("Allocated", "Pipelined", "Binding", "Bound", "Running")
             if json.loads(a[stk]) not in held and json.loads(b.get(stk, '""')) not in held:
                 continue
-        out.add(".".join([parts[0]] + [x for x in parts[2:] if not re.fullmatch(r"[pgnjqd]\d+", x)]))
+        out.add(".".join(parts[:2 if claims else 1] + [x for x in parts[2:] if not re.fullmatch(r"[pgnjqd]\d+", x)]))
     return sorted(out)
 
 
@@ -361,6 +405,8 @@ def validate(ctx, trace_path, prefixes, label, timeout=3000, heap="8g", per_sign
             sig = "%s [%s]" % (name, ",".join(features(prefix)))
             if name in ("C13_RollbackObs", "C13_DiscardObs"):
                 sig += " diff=" + ",".join(diff_classes(prefix))
+            if name == "C13_ClaimsObs":
+                sig += " diff=" + ",".join(diff_classes(prefix, claims=True))
             viol.setdefault(sig, []).append((len(prefix), name, scen, prefix))
         elif name.startswith("D_"):
             drifts.append("%s at step %d of program %s%s\nprogram prefix: %s" % (
@@ -421,9 +467,10 @@ def count_cases(ctx, trace_path, sample_every=499):
 
 def plans_for(ctx):
     if ctx.quick:
-        # small scope, every maximal path executed (Ax, Bx); larger scope, a shape-covering sample (A, B, M)
+        # small scope, every maximal path executed (Ax, Bx, Dx); larger scope, a shape-covering sample (A, B, M)
         return ([("Ax", SCN_WHOLE, dict(MaxOps=2, MaxFail=1, MaxStmts=1), 10 ** 9),
                  ("Bx", SCN_FRAC, dict(MaxOps=2, MaxFail=1, MaxStmts=1), 10 ** 9),
+                 ("Dx", SCN_DRA, dict(MaxOps=2, MaxFail=1, MaxStmts=1), 10 ** 9),
                  ("A", SCN_WHOLE, dict(MaxOps=4, MaxFail=1, MaxStmts=1), 450),
                  ("B", SCN_FRAC, dict(MaxOps=4, MaxFail=1, MaxStmts=1), 700),
                  ("M", SCN_MEM, dict(MaxOps=3, MaxFail=1, MaxStmts=1), 500)], 110, 50)
@@ -431,6 +478,8 @@ def plans_for(ctx):
     return ([("Ax", SCN_WHOLE, dict(MaxOps=3, MaxFail=1, MaxStmts=1), 10 ** 9),
              ("Bx", SCN_FRAC, dict(MaxOps=3, MaxFail=1, MaxStmts=1), 10 ** 9),
              ("Mx", SCN_MEM, dict(MaxOps=2, MaxFail=1, MaxStmts=1), 10 ** 9),
+             ("Dx", SCN_DRA, dict(MaxOps=3, MaxFail=1, MaxStmts=1), 10 ** 9),
+             ("D", SCN_DRA, dict(MaxOps=5, MaxFail=1, MaxStmts=1), 5000),
              ("A", SCN_WHOLE, dict(MaxOps=6, MaxFail=1, MaxStmts=1), 5000),
              ("A2", SCN_WHOLE, dict(MaxOps=3, MaxFail=2, MaxStmts=2), 5000),
              ("B", SCN_FRAC, dict(MaxOps=5, MaxFail=1, MaxStmts=1), 6000),
